@@ -234,13 +234,13 @@ def run(ctx, res, cases=None):
             # quick: one stream count per module (rotating with the seed), thorough: 1..4 streams
             ncs = [[4, 1, 3, 2][(mi + ctx.seed) % 4]] if ctx.quick else [1, 2, 3, 4]
             for nc in ncs:
-                nseq = 12 if ctx.quick else 80
+                nseq = 12 if ctx.quick else 60
                 for j in range(nseq):
                     cases.append(gen_case(rng.fork(k), mod, nc, rng.range(4, 40 if ctx.quick else 90), big=(j % 7 == 3))); k += 1
                 # (b) free-running stress; then one more sequential case on the same (reused) containers
                 t = nc
                 hdr = ['mod %s %d' % (mod, nc)] + (['cfg auto'] if mod in HBB else [])
-                rounds = 1200 if ctx.quick else 12000
+                rounds = 1200 if ctx.quick else (3000 if mod in ('ap', 'ip', 'spq', 'rnd') else 10000)   # the sorted-list modules insert in O(length)
                 cases.append(hdr + ['stress %d %d %d' % (t, rounds, rng.next() % 1000003), 'stress %d %d %d' % (max(1, t - 1), rounds // 2, rng.next() % 1000003), 'drain'])
                 cases.append(gen_case(rng.fork(k), mod, nc, 20, big=False)); k += 1
     groups = {}
@@ -255,7 +255,7 @@ def run(ctx, res, cases=None):
     def job(item):
         (mod, nc), cs = item
         t0 = _t.time()
-        out = run_group(exe, mod, nc, cs, use_driver=ctx.driver_ok, timeout=900 if ctx.quick else 3600)
+        out = run_group(exe, mod, nc, cs, use_driver=ctx.driver_ok, timeout=900 if ctx.quick else 7200)
         pv.log('[C08] %s/%d: %d cases in %.1fs' % (mod, nc, len(cs), _t.time() - t0))
         return out
     items = sorted(groups.items())
@@ -326,7 +326,7 @@ def run(ctx, res, cases=None):
                 '46% schedule [sched / vps = __parsec_schedule_vp / schedh for gd], 51% select [sel / next = get_next_task], 3% full drain; rings of 1..8 (62%), around the 4*nb_cores buffer size (22%), 20..64, and every 7th '
                 'case rings of 100..500 tasks (beyond lhq\'s buffers); 3 priority styles; ltq tasks carry an input-group so that heaps of several tasks are built; distances from {0,0,0,0,1,1,2,3,5}; random streams), '
                 'each ended by a full drain and compared exactly with the Lean machine (rnd: task/none pattern and drain multiset only); plus per (module, stream count) two free-running stress runs '
-                '(nb_streams compute threads + 1 communication thread that only targets stream 0; 1200 rounds quick / 12000 thorough each) checked by the multiset oracle, followed by a sequential case on the same containers. '
+                '(nb_streams compute threads + 1 communication thread that only targets stream 0; 1200 rounds quick / 3000 (sorted-list modules) or 10000 thorough each) checked by the multiset oracle, followed by a sequential case on the same containers. '
                 'distinct = distinct op sequence; non-trivial = a ring larger than 8, a task returned with a non-zero distance (steal / overflow / retention), or a stress run')
     res.extra['input_distribution'] = hist
 
